@@ -1021,6 +1021,68 @@ def undo_dataclasses(tree, ref):
     return total
 
 
+def undo_dispatch_tables(tree, ref):
+    """table = {K1: self.m1, K2: self.m2}; h = table.get(key); if h is not None: h(args)   ->   if key == K1: self.m1(args) elif
+    key == K2: self.m2(args).  The table is a dictionary display bound once (a new attribute set in __init__, or a local) whose
+    values are bound methods; an unknown key does nothing in both spellings."""
+    total = 0
+    for q, c in classes(tree):
+        want_attrs = ref.get('attrs', {}).get(q)
+        tables = {}
+        init = [st for st in c.body if isinstance(st, ast.FunctionDef) and st.name == '__init__']
+        if init and want_attrs is not None:
+            for st in init[0].body:
+                if isinstance(st, ast.Assign) and len(st.targets) == 1 and isinstance(st.targets[0], ast.Attribute) and isinstance(st.targets[0].value, ast.Name) and \
+                        st.targets[0].value.id == 'self' and st.targets[0].attr not in want_attrs and isinstance(st.value, ast.Dict) and st.value.keys and \
+                        all(k is not None and isinstance(v, ast.Attribute) and isinstance(v.value, ast.Name) and v.value.id == 'self' for k, v in zip(st.value.keys, st.value.values)):
+                    stores = [n for n in ast.walk(c) if isinstance(n, ast.Attribute) and n.attr == st.targets[0].attr and isinstance(n.ctx, (ast.Store, ast.Del))]
+                    if len(stores) == 1:
+                        tables['self.' + st.targets[0].attr] = (st, init[0].body)
+        for fn in [st for st in c.body if isinstance(st, ast.FunctionDef)]:
+            for block in _blocks(fn):
+                local = dict(tables)
+                for st in block:
+                    if isinstance(st, ast.Assign) and len(st.targets) == 1 and isinstance(st.targets[0], ast.Name) and isinstance(st.value, ast.Dict) and st.value.keys and \
+                            all(k is not None and isinstance(v, ast.Attribute) and isinstance(v.value, ast.Name) and v.value.id == 'self' for k, v in zip(st.value.keys, st.value.values)) and \
+                            _stores(fn).get(st.targets[0].id) == 1:
+                        local[st.targets[0].id] = (st, block)
+                i = 0
+                while i + 1 < len(block):
+                    a, b = block[i], block[i + 1]
+                    ok = isinstance(a, ast.Assign) and len(a.targets) == 1 and isinstance(a.targets[0], ast.Name) and isinstance(a.value, ast.Call) and \
+                        isinstance(a.value.func, ast.Attribute) and a.value.func.attr == 'get' and len(a.value.args) == 1 and not a.value.keywords and \
+                        _txt(a.value.func.value) in local and _harmless(a.value.args[0])
+                    if ok:
+                        h = a.targets[0].id
+                        t = b.test if isinstance(b, ast.If) and not b.orelse and len(b.body) == 1 else None
+                        guard = t is not None and (_txt(t) == h or _txt(t) in ('%s is not None' % h, 'None is not %s' % h))
+                        callst = b.body[0] if guard else None
+                        call = callst.value if isinstance(callst, (ast.Expr, ast.Return)) else None
+                        uses = sum(1 for n in ast.walk(fn) if isinstance(n, ast.Name) and n.id == h)
+                        if guard and isinstance(call, ast.Call) and isinstance(call.func, ast.Name) and call.func.id == h and uses == 3:
+                            tab_st, tab_block = local[_txt(a.value.func.value)]
+                            key = a.value.args[0]
+                            chain = None
+                            for k_, v_ in reversed(list(zip(tab_st.value.keys, tab_st.value.values))):
+                                c_ = ast.Call(func=copy.deepcopy(v_), args=copy.deepcopy(call.args), keywords=copy.deepcopy(call.keywords))
+                                stmt = ast.Return(value=c_) if isinstance(callst, ast.Return) else ast.Expr(value=c_)
+                                node = ast.If(test=ast.Compare(left=copy.deepcopy(key), ops=[ast.Eq()], comparators=[copy.deepcopy(k_)]), body=[ast.copy_location(stmt, callst)],
+                                              orelse=[chain] if chain is not None else [])
+                                chain = ast.copy_location(node, b)
+                            block[i:i + 2] = [chain]
+                            if tab_st in tab_block and not any(isinstance(n, (ast.Name, ast.Attribute)) and _txt(n) == _txt(tab_st.targets[0]) and isinstance(n.ctx, ast.Load)
+                                                               for n in ast.walk(c)):
+                                tab_block.remove(tab_st)
+                                if not tab_block:
+                                    tab_block.append(ast.Pass())
+                            total += 1
+                            continue
+                    i += 1
+    if total:
+        ast.fix_missing_locations(tree)
+    return total
+
+
 def restore_self(tree, ref):
     """A method the reference wrote with `self` that was made a @staticmethod (it never used self) gets its first parameter back;
     `Class.m(..)` calls from methods of the class become `self.m(..)`.  Which object the function is looked up on does not change what
@@ -2545,7 +2607,7 @@ def normalise(tree, path, ref_locals, model=None):
     if ref is None:
         return {}
     out = {}
-    for name, fn in (('moved', lambda: pull_back_moved(tree, ref, path, model)), ('match', lambda: lower_match(tree, ref)), ('enums', lambda: dissolve_enums(tree, ref)), ('namedtuples', lambda: dissolve_namedtuples(tree, ref)), ('dataclasses', lambda: undo_dataclasses(tree, ref)),
+    for name, fn in (('moved', lambda: pull_back_moved(tree, ref, path, model)), ('match', lambda: lower_match(tree, ref)), ('enums', lambda: dissolve_enums(tree, ref)), ('namedtuples', lambda: dissolve_namedtuples(tree, ref)), ('dataclasses', lambda: undo_dataclasses(tree, ref)), ('dispatch', lambda: undo_dispatch_tables(tree, ref)),
                      ('annotations', lambda: strip_annotations(tree, ref)), ('imports', lambda: normalise_imports(tree, ref)), ('attributes', lambda: rename_attributes(tree, ref)),
                      ('methods', lambda: rename_methods(tree, ref)), ('formats', lambda: restyle_formats(tree, ref)), ('closures', lambda: restore_closures(tree, ref)), ('self', lambda: restore_self(tree, ref)), ('tuples', lambda: split_tuple_bindings(tree, ref)), ('suppress', lambda: expand_suppress(tree, ref)), ('constants', lambda: _constants(tree, ref)),
                      ('observability', lambda: drop_observability(tree, ref)), ('params', lambda: default_new_params(tree, ref) + default_new_params(tree, ref)), ('initliterals', lambda: inline_init_literals(tree, ref)),
